@@ -1,4 +1,5 @@
 pub mod swiftness_pow {
+//@include pow_bits.rs
 pub mod config {
 use vstd::prelude::*;
 use crate::prelude::*;
@@ -58,8 +59,10 @@ pub fn verify_pow(digest: [u8; 32], n_bits: u8, nonce: u64) -> (r: Result<(), Er
         n_bits <= 128, // [C18:pow-n_bits<=128-else-underflow]
     ensures
         r.is_ok() <==> pow_ok(digest@, n_bits, nonce), // [C01,C02,C09:accepted-iff-hash-below-threshold]
+        r.is_ok() <==> super::pow_bits::starts_with_zero_bits(pow_hash(digest@, n_bits, nonce), n_bits as nat), // [C09:accepted-iff-hash-starts-with-n_bits-zero-bits]
 {
     broadcast use crate::hashes::group_digest_len;
+    proof { super::pow_bits::lemma_threshold_is_zero_bits(pow_hash(digest@, n_bits, nonce), n_bits as nat); }
     let mut hasher = Keccak256::new();
     let mut init_data = Vec::with_capacity(41);
     init_data.extend_from_slice(&MAGIC.to_be_bytes_x());
